@@ -64,6 +64,17 @@ def cases(tier, seed):
                         k += 1
                         yield dict(kind='exact', integ=integ, model=model, d=d, L=L, dtkind=dtkind,
                                    steps=1 + k % 3, nitfac=(1, 2, 4)[(k // 3) % 3], seed=int(rng.integers(1 << 31)))
+    # large steps (|dt| * ||H|| between 30 and 50, purely imaginary dt) on the largest chains: the local problems have more than 25
+    # dimensions and a Krylov space of the default size 25 is far from enough, so every local step has to use the requested count
+    for integ in ('single', 'two'):
+        for (model, d) in FAMILIES:
+            L = Lmax if d < 4 else Lmax - 1
+            if not h.model_available(model, L):
+                continue
+            for dtkind in ('imag', 'negimag'):
+                for r in range(reps):
+                    k += 1
+                    yield dict(kind='exact', integ=integ, model=model, d=d, L=L, dtkind=dtkind, steps=1, nitfac=1, big=True, seed=int(rng.integers(1 << 31)))
     Dmax = 4 if quick else 6
     for (model, d) in FAMILIES:
         for L in range(1, Lmax + 1):
@@ -131,7 +142,7 @@ def run_case(c):
     nloc = h.local_dims(qd, st['qD'], twosite=(integ == 'two'))
     numiter = c['nitfac'] * nloc + 2
     z = _unit(c['dtkind'], rng)
-    r = float(rng.uniform(0.3, 2.0))
+    r = float(rng.uniform(0.3, 2.0)) if not c.get('big') else float(rng.uniform(30.0, 50.0))
     dt = z * r / nH if nH > 1e-12 else z * r
     steps = c['steps']
     psin = v0 / n0
